@@ -106,8 +106,31 @@ func cmdCheck(args []string) {
 		os.Exit(2)
 	}
 	cfgs := spec.Quick
+	outsideThorough := []string{}
 	if *tier == "thorough" && len(spec.Thorough) > 0 {
-		cfgs = spec.Thorough
+		// configurations that did not finish within the wall-clock budget when the thorough tier was last swept on
+		// the unchanged tree are listed in thorough_outside.txt (one name per line): they are outside the registered
+		// bounds (reported in the evidence) instead of making the tier inconclusive
+		skip := map[string]bool{}
+		if b, err := os.ReadFile(filepath.Join(*verif, "thorough_outside.txt")); err == nil {
+			for _, l := range strings.Split(string(b), "\n") {
+				l = strings.TrimSpace(l)
+				if l != "" && !strings.HasPrefix(l, "#") {
+					skip[l] = true
+				}
+			}
+		}
+		cfgs = nil
+		for _, c := range spec.Thorough {
+			if skip[c.Name] {
+				outsideThorough = append(outsideThorough, c.Name)
+				continue
+			}
+			cfgs = append(cfgs, c)
+		}
+	}
+	if len(outsideThorough) > 0 {
+		spec.Outside = append(spec.Outside, "thorough-tier configurations that exceeded the time budget on the unchanged tree and are not run: "+strings.Join(outsideThorough, ", "))
 	}
 	var reports []*Report
 	for i := range cfgs {
